@@ -37,6 +37,8 @@ minute = 60 * s
 pound = 450 * g = lb
 ounce = lb / 16 = oz
 dram = oz / 16
+K = [temperature]
+degX = 2 * K; offset: 10
 stone = 14 * pound
 @context(p=2) A = a
     [length] -> [time]: value * p * s / m
@@ -44,6 +46,7 @@ stone = 14 * pound
 @end
 @context B
     foot = 1 / 4 * m
+    degX = 3 * K
 @end
 @context(p=5) C
     [mass] -> [length]: value * p * m / g
@@ -120,6 +123,18 @@ def battery(ureg, pint, newunits):
             out.append(str(ureg.Quantity(F(2), u).to_base_units().magnitude))
         except Exception as e:  # noqa: BLE001
             out.append("raised:" + type(e).__name__)
+    # context B turns the OFFSET unit degX into a multiplicative one: how compound strings naming it are
+    # read (delta_degX or degX) and converted follows the active stack, in both directions
+    for expr in ("degX * s", "degX / s", "degX ** 2", "m / degX"):
+        try:
+            out.append(("parse", expr, tuple(sorted((k, str(v)) for k, v in ureg.parse_units(expr)._units.items()))))
+        except Exception as e:  # noqa: BLE001
+            out.append(("parse", expr, "raised:" + type(e).__name__))
+    for src, dst in (("degX / s", "K / s"), ("degX", "K"), ("delta_degX", "K")):
+        try:
+            out.append(("conv", src, str(ureg.Quantity(F(3), src).to(dst).magnitude)))
+        except Exception as e:  # noqa: BLE001
+            out.append(("conv", src, "raised:" + type(e).__name__))
     for u in ("foot", "pound", "mile", "foot / minute", "stone * yard"):
         try:
             f, bu = ureg.get_base_units(u)
